@@ -85,3 +85,45 @@ Proof.
     + intros H. apply filter_In in H as [_ H]. rewrite E in H. discriminate.
     + apply in_map. apply filter_In. split; [assumption|]. rewrite E. reflexivity.
 Qed.
+
+(* ---------- a fetch round of k sub-fetches ---------- *)
+
+Lemma round_urls_app {U} : forall (a b : list (option (list U))),
+  round_urls (a ++ b) = round_urls a ++ round_urls b.
+Proof. intros a b. unfold round_urls. apply flat_map_app. Qed.
+
+(* For every number of sub-fetches, every completion order and every pattern of failed sub-fetches:
+   a URL is passed on by the round exactly when some successful sub-fetch received it (a failed
+   sibling loses nothing, nothing is invented); it then becomes a seed when it parses and is
+   acknowledged at once when it does not. *)
+Theorem feed_round_keeps_all_lemma : forall (parses : bytes -> bool) (results : list (option (list seed))),
+  (forall u, In u (round_urls results) <-> exists us, In (Some us) results /\ In u us)
+  /\ (forall us u, In (Some us) results -> In u us ->
+        (parses (sd_raw u) = true -> In u (seeds_of parses (round_urls results)))
+        /\ (parses (sd_raw u) = false -> In (sd_id u) (auto_finished parses (round_urls results))))
+  /\ (forall a b : list (option (list seed)), round_urls (a ++ b) = round_urls a ++ round_urls b)
+  /\ List.length (round_urls results)
+     = fold_right (fun r n => match r with Some us => List.length us + n | None => n end) 0 results.
+Proof.
+  intros parses results.
+  assert (H1 : forall u, In u (round_urls results) <-> exists us, In (Some us) results /\ In u us).
+  { intros u. unfold round_urls. rewrite in_flat_map. split.
+    - intros (r & Hr & Hu). destruct r as [us|]; [exists us; split; assumption | destruct Hu].
+    - intros (us & Hr & Hu). exists (Some us). split; assumption. }
+  split; [exact H1|]. split; [|split].
+  - intros us u Hr Hu. assert (Hin : In u (round_urls results)) by (apply H1; exists us; split; assumption).
+    split; intros Hp.
+    + unfold seeds_of. apply filter_In. split; assumption.
+    + unfold auto_finished. apply in_map. apply filter_In. split; [assumption|]. rewrite Hp. reflexivity.
+  - intros a b. apply round_urls_app.
+  - clear H1. unfold round_urls. induction results as [|r rs IH]; simpl; [reflexivity|].
+    rewrite app_length, IH. destruct r; simpl; reflexivity.
+Qed.
+
+Example feed_round_nonvacuous :
+  let a := SD (bs "1") (bs "http://a/") [] 0 in
+  let b := SD (bs "2") (bs "not a url") [] 1 in
+  let c := SD (bs "3") (bs "http://c/") [] 2 in
+  round_urls [Some [a; b]; None; Some [c]] = [a; b; c]
+  /\ seeds_of (fun t => match t with "h"%char :: _ => true | _ => false end) (round_urls [None; Some [a; b]; Some [c]]) = [a; c].
+Proof. vm_compute. split; reflexivity. Qed.
